@@ -244,7 +244,13 @@ impl Checker {
         };
         if what == "rpc" || what == "boot" || what == "init" {
             // not a peer message: attribute to the property under which the scenario runs
-            let prop = if self.flag("crash") { "C08" } else { "C03" };
+            let prop = if ctx.contains("rpc send_transaction") || ctx.contains("rpc estimate_cycles") {
+                "C18"
+            } else if self.flag("crash") {
+                "C08"
+            } else {
+                "C03"
+            };
             sim.violate(
                 prop,
                 &format!("abort_in_{}:{}", what, norm),
